@@ -175,6 +175,8 @@ func pkgOfFile(path string) string {
 }
 
 type Contracts struct {
+	SmtFuns     map[string][2]string
+	SmtFunOrder []string
 	IfacePatterns []*Contract
 	Sigs          map[string]*Contract // function-type string -> family contract for calls through values of that type
 	FieldAssume map[string]*Sx // "pkg.Type.field" -> assumed fact about every value loaded from that field (name: value)
@@ -313,6 +315,20 @@ func (cs *Contracts) parseFile(path, text string) error {
 			}
 			cs.FieldAssume[nm] = es[0]
 			continue
+		case "smt-fun":
+			// smt-fun NAME (declare-fun ...) (define-fun-rec ...): the declaration is used everywhere, the definition only
+			// in functions whose contract says `opt defs NAME`
+			nm, r2 := splitWord(rest)
+			es, err := parseSxAll(r2)
+			if err != nil || len(es) != 2 {
+				return fmt.Errorf("%s: smt-fun needs a declaration and a definition", where)
+			}
+			if cs.SmtFuns == nil {
+				cs.SmtFuns = map[string][2]string{}
+			}
+			cs.SmtFuns[nm] = [2]string{es[0].String(), es[1].String()}
+			cs.SmtFunOrder = append(cs.SmtFunOrder, nm)
+			continue
 		case "smt":
 			cs.Raw = append(cs.Raw, rest)
 			continue
@@ -325,6 +341,14 @@ func (cs *Contracts) parseFile(path, text string) error {
 			return fmt.Errorf("%s: clause %q outside a func block", where, kw)
 		}
 		switch kw {
+		case "lemma":
+			es, err := parseSxAll(rest)
+			if err != nil {
+				return fmt.Errorf("%s: %v", where, err)
+			}
+			for _, x := range es {
+				cur.Lemmas = append(cur.Lemmas, Ensures{Tag: fmt.Sprintf("l%d", len(cur.Lemmas)), Expr: x})
+			}
 		case "requires":
 			es, err := parseSxAll(rest)
 			if err != nil {
@@ -532,6 +556,7 @@ func (cs *Contracts) For(name string) *Contract {
 			m.Bytes = own.Bytes
 		}
 		m.Loops = own.Loops
+		m.Lemmas = own.Lemmas
 		for k, v := range own.Opts {
 			m.Opts[k] = v
 		}
